@@ -78,7 +78,7 @@ TIE_THEOREMS = {".IsReservedWord": "IsReservedWord_eq", "File.isLocal": "isLocal
                 ".NewFile": "NewFile_eq", ".NewFilePath": "NewFilePath_eq", ".NewFilePathName": "NewFilePathName_eq",
                 "File.HeaderComment": "HeaderComment_eq", "File.PackageComment": "PackageComment_eq", "File.CgoPreamble": "CgoPreamble_eq",
                 "Statement.Render": "Statement_Render_eq", "Group.Render": "Group_Render_eq", "Statement.GoString": "Statement_GoString_eq",
-                "Group.GoString": "Group_GoString_eq", "File.GoString": "File_GoString_eq"}
+                "Group.GoString": "Group_GoString_eq", "File.GoString": "File_GoString_eq", "Statement.previous": "Statement_previous_eq"}
 syntactic_tie = None
 escalate = 1
 rct = 0
@@ -115,6 +115,8 @@ if prop in TIE_PROPS:
     THM_FILE.update({t: "JenVerif/Tie/FileOpsSrc.lean" for t in ("NewFile_eq", "NewFilePath_eq", "NewFilePathName_eq", "HeaderComment_eq", "PackageComment_eq", "CgoPreamble_eq")})
     DEPS["JenVerif/Tie/FileOpsSrc.lean"] = ["JenVerif/Tie/GuessAliasSrc.lean"]
     THM_FILE.update({t: "JenVerif/Tie/WrapSrc.lean" for t in ("Statement_Render_eq", "Group_Render_eq", "Statement_GoString_eq", "Group_GoString_eq", "File_GoString_eq")})
+    THM_FILE["Statement_previous_eq"] = "JenVerif/Tie/PreviousSrc.lean"
+    DEPS["JenVerif/Tie/PreviousSrc.lean"] = []
     DEPS["JenVerif/Tie/DictSrc.lean"] = ["JenVerif/Tie/RenderSrc.lean"] + DEPS["JenVerif/Tie/RenderSrc.lean"]
     DEPS["JenVerif/Tie/TokenSrc.lean"] = ["JenVerif/Tie/RenderSrc.lean"] + DEPS["JenVerif/Tie/RenderSrc.lean"]
     DEPS["JenVerif/Tie/EntrySrc.lean"] = ["JenVerif/Tie/Registry.lean"] + DEPS["JenVerif/Tie/Registry.lean"]
